@@ -110,6 +110,14 @@ CHECKS.update({
     ),
 })
 
+CHECKS.update({
+    "C14": dict(
+        text="differential exploration: every sequence of <=3/4 tokens over 29 tokens (bare and wrapped) x 25 owned target types x every reader schedule (whole, pieces 1/2/3/7, all cut sets up to 10 bytes, every single cut beyond), one more token level with piece sizes 1 and 7 on 8 targets, and every plain serialization of the C06 value set plus all its single-token deletions and duplications as its own type: from_str and from_reader both fail or both succeed with equal values",
+        note="UTF-8 documents only (as stated); a panic on either side counts as failure here (C07 owns panics)",
+        technique="exhaustive enumeration of documents x target types x reader chunk schedules, differential from_str vs from_reader on the real deserializer",
+    ),
+})
+
 PENDING_REASON = "check not built yet (work in progress; see DESIGN.md §9 for the order of work)"
 
 ALL = ["C%02d" % i for i in range(1, 21)]
